@@ -755,6 +755,7 @@ var seedNow uint64
 func directFixed(r *Rng, sink *Sink, n int) int {
 	checks := len(zeroValueMethods())
 	zeroLaw("")
+	checks += duplicateConcurrent(600)
 	for i := 0; i < n; i++ {
 		checks += lawsForSeed(r.Next() % 1000000007)
 	}
